@@ -1,0 +1,239 @@
+//go:build verif
+
+package factstore
+
+import (
+	"fmt"
+
+	"codeberg.org/TauCeti/mangle-go/ast"
+)
+
+// This file is only built with the "verif" build tag. It adds read-only walkers
+// over private state so that an external monitor can check structural
+// invariants at quiescent points. It changes no behaviour.
+
+// VerifTreeStats describes one interval tree that was walked.
+type VerifTreeStats struct {
+	Size   int
+	Height int
+	Shape  string // parenthesised shape, e.g. "((.)(.))"
+}
+
+// VerifCheck walks the tree and checks the AVL, ordering, height, maxEnd and
+// size invariants. It returns the first broken invariant.
+func (t *IntervalTree) VerifCheck() (VerifTreeStats, error) {
+	n, h, _, shape, err := verifWalk(t.root)
+	if err != nil {
+		return VerifTreeStats{}, err
+	}
+	if n != t.size {
+		return VerifTreeStats{}, fmt.Errorf("size field %d but %d nodes", t.size, n)
+	}
+	return VerifTreeStats{Size: n, Height: h, Shape: shape}, nil
+}
+
+func verifWalk(n *treeNode) (count, h int, maxEnd int64, shape string, err error) {
+	if n == nil {
+		return 0, 0, minInt64, ".", nil
+	}
+	lc, lh, lmax, lshape, err := verifWalk(n.left)
+	if err != nil {
+		return
+	}
+	rc, rh, rmax, rshape, err := verifWalk(n.right)
+	if err != nil {
+		return
+	}
+	start := GetStartTime(n.interval)
+	if n.left != nil {
+		if m := verifMaxStart(n.left); m > start {
+			return 0, 0, 0, "", fmt.Errorf("order: left subtree of %v holds start %d > %d", n.interval, m, start)
+		}
+	}
+	if n.right != nil {
+		if m := verifMinStart(n.right); m < start {
+			return 0, 0, 0, "", fmt.Errorf("order: right subtree of %v holds start %d < %d", n.interval, m, start)
+		}
+	}
+	h = lh
+	if rh > h {
+		h = rh
+	}
+	h++
+	if n.height != h {
+		return 0, 0, 0, "", fmt.Errorf("height field %d of %v, real height %d", n.height, n.interval, h)
+	}
+	if d := lh - rh; d > 1 || d < -1 {
+		return 0, 0, 0, "", fmt.Errorf("balance %d at %v", d, n.interval)
+	}
+	maxEnd = GetEndTime(n.interval)
+	if n.left != nil && lmax > maxEnd {
+		maxEnd = lmax
+	}
+	if n.right != nil && rmax > maxEnd {
+		maxEnd = rmax
+	}
+	if n.maxEnd != maxEnd {
+		return 0, 0, 0, "", fmt.Errorf("maxEnd field %d of %v, real max end %d", n.maxEnd, n.interval, maxEnd)
+	}
+	return lc + rc + 1, h, maxEnd, "(" + lshape + rshape + ")", nil
+}
+
+func verifMaxStart(n *treeNode) int64 {
+	m := GetStartTime(n.interval)
+	if n.left != nil {
+		if x := verifMaxStart(n.left); x > m {
+			m = x
+		}
+	}
+	if n.right != nil {
+		if x := verifMaxStart(n.right); x > m {
+			m = x
+		}
+	}
+	return m
+}
+
+func verifMinStart(n *treeNode) int64 {
+	m := GetStartTime(n.interval)
+	if n.left != nil {
+		if x := verifMinStart(n.left); x < m {
+			m = x
+		}
+	}
+	if n.right != nil {
+		if x := verifMinStart(n.right); x < m {
+			m = x
+		}
+	}
+	return m
+}
+
+// VerifCheck walks every tree of the store, checks each, checks that the
+// cached count equals the number of stored (atom, interval) pairs and that
+// every tree key has an atom. Returns per-tree statistics.
+func (s *TemporalStore) VerifCheck() ([]VerifTreeStats, error) {
+	var stats []VerifTreeStats
+	total := 0
+	for pred, m := range s.facts {
+		for h, tree := range m {
+			a, ok := s.atoms[h]
+			if !ok {
+				return nil, fmt.Errorf("tree of %v under hash %d has no atom", pred, h)
+			}
+			if a.Predicate != pred {
+				return nil, fmt.Errorf("atom %v stored under predicate %v", a, pred)
+			}
+			st, err := tree.VerifCheck()
+			if err != nil {
+				return nil, fmt.Errorf("tree of %v: %w", a, err)
+			}
+			total += st.Size
+			stats = append(stats, st)
+		}
+	}
+	if total != s.count {
+		return nil, fmt.Errorf("count field %d but %d stored intervals", s.count, total)
+	}
+	return stats, nil
+}
+
+// VerifCheckIndexes checks, for the multi-indexed stores, that every
+// per-argument index holds exactly the same set of atoms and that the cached
+// count (array store) agrees. Other store types are accepted without checks.
+// It returns the number of atoms seen in index 0 (plus zero-arity facts).
+func VerifCheckIndexes(store ReadOnlyFactStore) (int, error) {
+	switch s := store.(type) {
+	case MultiIndexedInMemoryStore:
+		n := len(s.constants)
+		for pred, shard := range s.shardsByPredicate {
+			var ref map[*ast.Atom]bool
+			for i := 0; i < pred.Arity; i++ {
+				cur := map[*ast.Atom]bool{}
+				for argHash, atoms := range shard[uint16(i)] {
+					for aHash, a := range atoms {
+						if a.Hash() != aHash {
+							return 0, fmt.Errorf("%v: atom %v filed under atom hash %d", pred, *a, aHash)
+						}
+						if a.Args[i].Hash() != argHash {
+							return 0, fmt.Errorf("%v: atom %v filed under arg-%d hash %d", pred, *a, i, argHash)
+						}
+						cur[a] = true
+					}
+				}
+				if i == 0 {
+					ref = cur
+					n += len(cur)
+					continue
+				}
+				if err := verifSameAtoms(ref, cur); err != nil {
+					return 0, fmt.Errorf("%v: index 0 and index %d disagree: %w", pred, i, err)
+				}
+			}
+		}
+		return n, nil
+	case *MultiIndexedArrayInMemoryStore:
+		n := len(s.constants)
+		for pred, shard := range s.shardsByPredicate {
+			var ref map[*ast.Atom]bool
+			for i := 0; i < pred.Arity; i++ {
+				cur := map[*ast.Atom]bool{}
+				for argHash, atoms := range shard[uint16(i)] {
+					for aHash, list := range atoms {
+						for _, a := range list {
+							if a.Hash() != aHash {
+								return 0, fmt.Errorf("%v: atom %v filed under atom hash %d", pred, *a, aHash)
+							}
+							if a.Args[i].Hash() != argHash {
+								return 0, fmt.Errorf("%v: atom %v filed under arg-%d hash %d", pred, *a, i, argHash)
+							}
+							if cur[a] {
+								return 0, fmt.Errorf("%v: atom %v twice in index %d", pred, *a, i)
+							}
+							cur[a] = true
+						}
+					}
+				}
+				if i == 0 {
+					ref = cur
+					n += len(cur)
+					continue
+				}
+				if err := verifSameAtoms(ref, cur); err != nil {
+					return 0, fmt.Errorf("%v: index 0 and index %d disagree: %w", pred, i, err)
+				}
+			}
+		}
+		if n != s.count {
+			return 0, fmt.Errorf("count field %d but %d atoms indexed", s.count, n)
+		}
+		return n, nil
+	case ConcurrentFactStore:
+		s.mutex.RLock()
+		defer s.mutex.RUnlock()
+		return VerifCheckIndexes(s.base)
+	}
+	return -1, nil
+}
+
+// verifSameAtoms compares two index contents structurally (pointers differ per
+// index in the map-valued store because each Add stores &a of the same copy;
+// compare by Equals to be safe).
+func verifSameAtoms(a, b map[*ast.Atom]bool) error {
+	if len(a) != len(b) {
+		return fmt.Errorf("%d vs %d atoms", len(a), len(b))
+	}
+outer:
+	for x := range a {
+		if b[x] {
+			continue
+		}
+		for y := range b {
+			if x.Equals(*y) {
+				continue outer
+			}
+		}
+		return fmt.Errorf("atom %v missing", *x)
+	}
+	return nil
+}
